@@ -160,13 +160,27 @@ def run_program(prog):
     def leafnum(c):
         return int(c) if float(c).is_integer() and abs(c) < 100 and prog.get("intnum", True) else float(c)
 
+    shared = {}
+
     def build(t, mods, oracle):
+        # "share": structurally identical compound sub-expressions of the real program are ONE Python object
+        # reused across statements (`base = a + b; base + C >> s; base - C >> s`), as users write them
+        if prog.get("share") and not oracle and t[0] not in ("P", "S", "Y", "Z", "F", "N", "C"):
+            key = repr(t)
+            if key not in shared:
+                shared[key] = build1(t, mods, oracle)
+            return shared[key]
+        return build1(t, mods, oracle)
+
+    def build1(t, mods, oracle):
         k = t[0]
         if k == "P":
             return mods[t[1]]
         if k == "S":
             return mods[t[1]]
         if k == "Y":
+            if oracle == 2:       # second oracle: no PointerSymbol at all, the key's pointer of the sink vocabulary
+                return vocabs[prog["sink"][1]][KEYS[t[1]]]
             return getattr(spa.sym, KEYS[t[1]])
         if k == "Z":
             if oracle:
@@ -318,6 +332,36 @@ def run_program(prog):
             break
     out["oracle"] = ostat
     out["oracle_value"] = None if total is None or ostat != "ok" else total.tolist()
+
+    # ---- second oracle, independent of PointerSymbol's text: every symbol replaced by the sink vocabulary's pointer.
+    # Defined when the sink is a pointer sink and every vocabulary-carrying leaf belongs to the sink vocabulary and
+    # nothing is reinterpreted / translated (then every symbol of the statement is read in that vocabulary).
+    out["oracle2_value"] = None
+    if sink_kind[0] == "P":
+        sv = sink_kind[1]
+
+        def simple(t):
+            if t[0] in ("rei", "tra", "dot", "N"):
+                return False
+            if t[0] == "P":
+                return srcs[t[1]][1] == sv
+            if t[0] in ("Z",):
+                return t[2] == sv
+            if t[0] == "F":
+                return t[1] == sv
+            return all(simple(x) for x in t[1:] if isinstance(x, tuple))
+        if all(simple(st) for st in prog["stmts"]) and any(contains(st, lambda x: x[0] == "Y") for st in prog["stmts"]):
+            try:
+                tot2 = None
+                for st in prog["stmts"]:
+                    r = build1(st, omods, 2)
+                    val = np.array(r.v, float) if isinstance(r, SemanticPointer) else None
+                    if val is None or val.shape != (vocabs[sv].dimensions,):
+                        raise TypeError("not a pointer")
+                    tot2 = val if tot2 is None else tot2 + val
+                out["oracle2_value"] = tot2.tolist()
+            except Exception:  # noqa: the second oracle is optional
+                out["oracle2_value"] = None
     return out
 
 
@@ -646,6 +690,53 @@ def run(ctx):
             p["stmts"].append(st)
         progs.append(("valid", f"valid-{alg}", p))
 
+    # ---- fixed symbolic shapes: nested products/sums of symbols in both association orders ---------------
+    Y0, Y1, Y2 = ("Y", 0), ("Y", 1), ("Y", 2)
+    sym_shapes = [
+        ("mul", Y0, ("mul", Y1, Y2)), ("mul", ("mul", Y0, Y1), Y2), ("mul", Y0, ("mul", Y1, ("mul", Y2, Y0))),
+        ("sub", Y0, ("sub", Y1, Y2)), ("sub", Y0, ("add", Y1, Y2)), ("add", Y0, ("sub", Y1, Y2)),
+        ("mul", Y0, ("add", Y1, Y2)), ("mul", ("add", Y0, Y1), ("sub", Y2, Y0)), ("neg", ("mul", Y0, ("mul", Y1, Y2))),
+        ("mul", ("inv", "2", ("mul", Y0, Y1)), Y2),
+    ]
+    for alg in ("hrr", "vtb", "tvtb"):
+        dims = [4, 4, 4] if alg != "hrr" else [4, 4, 3]
+        for t in sym_shapes:
+            for wrap in (0, 1, 2):
+                p = make_context(rng, alg, dims, sink=("P", 0, "state"))
+                g = Gen(rng, p)
+                if wrap == 0:
+                    st = t                                   # sym-expression >> state
+                elif wrap == 1:
+                    st = ("mul", g.psrc(0), t)               # dynamic pointer * sym-expression
+                else:
+                    st = ("mul", t, g.psrc(0))               # sym-expression * dynamic pointer
+                p["stmts"].append(st)
+                progs.append(("valid", f"valid-symshape-{alg}", p))
+
+    # ---- shared sub-expression objects across statements (history: an AST node used more than once) -------
+    for alg in ("hrr", "vtb", "tvtb"):
+        dims = [4, 4, 4] if alg != "hrr" else [4, 4, 3]
+        for variant in range(6 if quick else 24):
+            for sinkk in (("P", 0, "state"), ("S",)):
+                p = make_context(rng, alg, dims, sink=sinkk)
+                g = Gen(rng, p)
+                if sinkk[0] == "P":
+                    a, b, c = g.psrc(0), g.psrc(0), g.psrc(0)
+                    base = rng.choice([("add", a, b), ("sub", a, b), ("add", ("add", a, b), c), ("add", a, ("neg", b))])
+                    extra = lambda: rng.choice([("Y", rng.randrange(3)), ("neg", c), ("mul", c, ("Y", rng.randrange(3))),
+                                                ("inv", "2", c)])
+                else:
+                    a, b = g.ssrc(), g.ssrc()
+                    base = rng.choice([("add", a, b), ("sub", a, b), ("add", a, ("C", 0.5))])
+                    extra = lambda: rng.choice([("C", rng.choice(NUMS)), ("neg", g.ssrc()), ("mul", g.ssrc(), ("C", 0.5))])
+                shapes = [[("add", base, extra()), ("sub", base, extra()), base],
+                          [("add", base, extra()), base],
+                          [base, ("add", base, extra()), ("add", base, extra())],
+                          [("sub", base, extra()), ("add", ("add", base, extra()), extra())]]
+                p["stmts"] = rng.choice(shapes)
+                p["share"] = True
+                progs.append(("valid", f"valid-shared-{alg}", p))
+
     # ---- all trees with at most one operator; sampled two-level trees ---------------------------
     small_ctxs = [("hrr", [4, 4, 3]), ("vtb", [4, 4, 4]), ("tvtb", [4, 4, 4]), ("hrr", [1, 1, 2])]
     if not quick:
@@ -703,6 +794,11 @@ def run(ctx):
                 scale = max(1.0, float(np.abs(want).max()))
                 if val.shape != want.shape or not np.all(np.abs(val - want) <= 1e-9 * scale):
                     ctx.fail(case, res["value"], res["oracle_value"], where="sink-value")
+                elif res.get("oracle2_value") is not None:
+                    want2 = np.array(res["oracle2_value"])
+                    stats["oracle2"] = stats.get("oracle2", 0) + 1
+                    if val.shape != want2.shape or not np.all(np.abs(val - want2) <= 1e-9 * max(1.0, float(np.abs(want2).max()))):
+                        ctx.fail(case, res["value"], res["oracle2_value"], where="sink-value-symbols-as-pointers")
             else:
                 stats["oracle_undefined"] += 1
                 if stream == "valid":
